@@ -62,7 +62,7 @@ static void put_bytes(std::string& js, const char* key, const uint8_t* p, int n)
 // kinds whose result depends on the register width (events are grouped per width)
 static bool reg_granular(const std::string& k)
 {
-    return !(k == "ew" || k == "ew2" || k == "ewi" || k == "ewm" || k == "sel" || k == "cmp" || k == "cvt" || k == "m1" || k == "m2" || k == "m3");
+    return !(k == "ew" || k == "ew2" || k == "ewi" || k == "ewm" || k == "sel" || k == "cmp" || k == "cvt" || k == "m1" || k == "m2" || k == "m1x2" || k == "m1i");
 }
 
 int main(int argc, char** argv)
@@ -121,6 +121,12 @@ int main(int argc, char** argv)
         if (it == index.end())
             continue;
         bool rg = reg_granular(kind);
+        // an (operation, type) that already timed out several times is not run again: every further line would cost a
+        // watchdog period per architecture; the timeouts already recorded are rejections in their own right
+        static std::map<std::string, int> timeouts;
+        std::string tkey = std::string(op) + " " + type;
+        if (timeouts[tkey] >= 3)
+            continue;
         // group architectures by (width if register-granular, result bytes)
         std::map<std::string, std::vector<int>> groups;
         std::vector<std::string> order;
@@ -154,6 +160,14 @@ int main(int argc, char** argv)
             else
             {
                 g_in_call = 0;
+                if (g_sig == SIGALRM && ++timeouts[tkey] >= 3)
+                {
+                    key = std::string("F") + std::to_string((int)g_sig) + ":" + std::to_string(reg[pr.first].regbytes);
+                    if (!groups.count(key))
+                        order.push_back(key);
+                    groups[key].push_back(pr.first);
+                    break;
+                }
                 key = std::string("F") + std::to_string((int)g_sig) + ":" + std::to_string(reg[pr.first].regbytes);
             }
             if (!groups.count(key))
